@@ -10,6 +10,7 @@ CONSTANTS
   MCWrites = 1
   MCPauses = 0
   MCPanics = {FALSE}
+  MCGoAway = TRUE
   GenDepth = 12
 INVARIANTS Emit NoViolation HandlerBound StreamLimit NeverHandled
 CHECK_DEADLOCK FALSE
